@@ -18,7 +18,7 @@ from .common import REPO, ROOT
 
 RULE = (
 	'both shipped schema sets x PYTHONHASHSEED values (0, 1, 2, VERIF_SEED-derived ...) x working directories (sdk/python as the script does, '
-	'repo root, a scratch directory) x relative/absolute --schema/--include x fresh output directory / output directory holding a leftover __init__.py (unrelated text, the expected file itself, its CRLF / CR / BOM / non-UTF-8 / truncated / no-final-newline / trailing-blank variants, the module of the other network, an empty file); every line of both generated '
+	'repo root, a scratch directory) x relative/absolute --schema/--include x fresh output directory / output directory holding a leftover __init__.py (unrelated text, the expected file itself, its CRLF / CR / BOM / non-UTF-8 / truncated / no-final-newline / trailing-blank variants, the module of the other network, an empty file); plus sequences of runs for different schema sets inside ONE interpreter (nem then symbol, symbol then nem, ...); every line of both generated '
 	'modules compared with the checked-in file. distinct = distinct (network, seed, cwd, path style, stale) configurations; all non-trivial '
 	'(each runs the full parser + generator).')
 TRUSTED_BASE = [
@@ -150,16 +150,64 @@ def compare_module(ctx, driver, label, schema, text):
 			'module_line': module_lines[index] if index < len(module_lines) else None})
 
 
+SEQUENCE_PROGRAM = r'''
+import json, os, sys
+from catparser.__main__ import main
+repo, scratch, order = sys.argv[1], sys.argv[2], sys.argv[3].split(',')
+for index, network in enumerate(order):
+	schemas = os.path.join(repo, 'catbuffer', 'schemas', network)
+	sys.argv = ['catparser', '--schema', os.path.join(schemas, 'all_generated.cats'), '--include', schemas,
+		'--output', os.path.join(scratch, f'{index}-{network}'), '--quiet', '--generator', 'generator.Generator']
+	main()
+'''
+
+
+def run_sequences(ctx, scratch, shipped_modules):
+	"""Several generator runs in ONE interpreter (the parser and the generator used as a library, one schema set after the
+	other): what an earlier run left in the process - caches on classes or modules - must not leak into a later one."""
+	orders = [['nem', 'symbol'], ['symbol', 'nem'], ['nem', 'symbol', 'nem'], ['symbol', 'symbol']]
+	if ctx.thorough:
+		orders += [['symbol', 'nem', 'symbol'], ['nem', 'nem', 'symbol', 'symbol']]
+	for number, order in enumerate(orders):
+		target = os.path.join(scratch, f'sequence-{number}')
+		os.makedirs(target)
+		env = dict(os.environ)
+		env.update({
+			'PYTHONHASHSEED': str(number), 'PYTHONDONTWRITEBYTECODE': '1',
+			'PYTHONPATH': os.pathsep.join([os.path.join(REPO, 'catbuffer', 'parser'), os.path.join(REPO, 'sdk', 'python'), os.path.join(ROOT, 'shims')]),
+		})
+		proc = subprocess.run(
+			['/venv/bin/python', '-c', SEQUENCE_PROGRAM, REPO, target, ','.join(order)], cwd=scratch, env=env, capture_output=True, text=True, timeout=600, check=False)
+		config = {'one_interpreter_sequence': order, 'hash_seed': number}
+		ctx.case(('sequence', tuple(order)), config)
+		ctx.count('runs:sequence-in-one-interpreter')
+		if 0 != proc.returncode:
+			ctx.fail('property', f'generator runs {order} in one interpreter fail: exit {proc.returncode}', dict(config, stderr=proc.stderr[-800:]))
+			continue
+		for index, network in enumerate(order):
+			with open(os.path.join(target, f'{index}-{network}', '__init__.py'), 'rb') as infile:
+				produced = infile.read()
+			if produced != shipped_modules[network]:
+				diff = list(difflib.unified_diff(
+					shipped_modules[network].decode('utf8').split('\n'), produced.decode('utf8', 'replace').split('\n'), 'checked-in', 'generated', lineterm='', n=1))[:30]
+				ctx.fail('property', (
+					f'{network}: run number {index + 1} of the sequence {order} in one interpreter does not reproduce the checked-in module '
+					'(the output depends on an earlier run)'), dict(config, position=index, diff=diff))
+		shutil.rmtree(target, ignore_errors=True)
+
+
 def run(ctx):
 	# pylint: disable=too-many-locals,too-many-branches
 	rng = ctx.rng
 	scratch = ctx.tmpdir()
 	seeds = [0, 1, 2, rng.randrange(3, 1 << 31)] if not ctx.thorough else [0, 1, 2] + [rng.randrange(3, 1 << 31) for _ in range(13)]
 	cwds = [os.path.join(REPO, 'sdk', 'python'), REPO, scratch]
+	shipped_modules = {}
 	for network, package in NETWORKS.items():
 		shipped_path = os.path.join(REPO, 'sdk', 'python', 'symbolchain', package, '__init__.py')
 		with open(shipped_path, 'rb') as infile:
 			shipped = infile.read()
+		shipped_modules[network] = shipped
 		configurations = []
 		for seed in seeds:
 			for cwd in cwds:
@@ -235,6 +283,7 @@ def run(ctx):
 				rendered = ','.join(f'{key}={value}' for key, value in expected) or '-'
 				if answer != rendered:
 					ctx.fail('corr', f'{network}.{name}: TYPE_HINTS of the generated class differ from the model', {'network': network, 'type': name, 'model': answer, 'module': rendered})
+	run_sequences(ctx, scratch, shipped_modules)
 
 
 def replay(ctx, payload):
